@@ -16,12 +16,14 @@ LEVEL = "proof"
 LEAN_IMPORTS = ["WM.Props.C15"]
 THEOREMS = [
     "WM.C15.normalize_sat_partial", "WM.C15.normalize_answer_partial", "WM.C15.not_normalize_sat_full",
+    "WM.C15.never_raises", "WM.C15.ops_never_raise",
     "WM.C15.defect_and_null", "WM.C15.defect_not_null", "WM.C15.defect_and_every_field",
     "WM.C15.defect_and_range_multivalued", "WM.C15.defect_and_range_nested", "WM.C15.defect_odd_terms",
     "WM.C15.idempotent", "WM.C15.total", "WM.C15.range_merge_union", "WM.C15.range_merge_inter_partial",
     "WM.C15.with_boost_sat", "WM.C15.ops_and_partial", "WM.C15.ops_or_partial", "WM.C15.ops_sub_partial",
     "WM.C15.apply_id_sat", "WM.C15.replace_absent", "WM.C15.replace_absent_sat",
-    "WM.C15.simplify_sat_partial", "WM.C15.estimate_ge",
+    "WM.C15.simplify_sat_partial", "WM.C15.estimate_ge", "WM.C15.estimate_total", "WM.C15.estimate_total_ge",
+    "WM.C15.eq_iff", "WM.C15.eq_same_meaning", "WM.C15.dedupe_sat",
 ]
 _DEFECTS = ("the pinned tree's CompoundQuery.normalize/Not.normalize are not meaning preserving on trees outside "
             "WM.Clean.clean (And drops NullQuery clauses, Not(NullQuery) becomes NullQuery, And drops clauses next to "
@@ -44,22 +46,29 @@ PARTIAL = {
                            "are not modelled), so a Sequence is only known to mean the same if its subqueries "
                            "are rebuilt identically (Not.apply forgets the boost of a Not)",
     "WM.C15.replace_absent_sat": "same hypothesis as apply_id_sat",
-    "WM.C15.total": "only the shape invariant NF is informative: `normalize : Q -> Q` is a total function with no "
-                    "exception monad, so 'never raises' is NOT a Lean statement.  It rests on (a) the model having no "
-                    "partial operation at any modelled site (the one raising site of the pinned tree, comparing "
-                    "NumericRange with TermRange bounds in RangeMixin.overlaps, is repaired by a fix: commit and "
-                    "mirrored) and (b) the check calling every rewrite on every generated tree, ill-typed "
-                    "range mixes included, and reporting any exception",
-    "WM.C15.estimate_ge": "the Reader of the model has no deleted documents (hypothesis rd.docs = env.index); with "
-                          "deletions doc_frequency only grows and doc_count is the live count, which the end-to-end "
-                          "stream checks on indexes with deletions (estimate_size >= live matches); estimate_size of "
-                          "span queries and NumericRange is not modelled (`none` resp. a placeholder)",
+    "WM.C15.never_raises": "normalizeE (WM/Model/NormalizeExc.lean) keeps the raising statements on the path of "
+                           "normalize() as raising sites: the assert of RangeMixin.merge; the tuple comparison of "
+                           "RangeMixin.overlaps between a NumericRange and a TermRange (TypeError on the pinned tree) "
+                           "is repaired by a fix: commit and has no counterpart because a NumericRange is not a "
+                           "range node of the model; TermRange bounds are texts in the model (a TermRange built with "
+                           "non-text bounds is outside it).  The check additionally calls every rewrite on every "
+                           "generated tree, ill-typed range mixes included, and reports any exception",
+    "WM.C15.estimate_ge": "holds for every reader with or without deleted documents (rd.dead arbitrary: "
+                          "doc_frequency counts them, doc_count() does not); estimate_size of span queries and "
+                          "NumericRange is not modelled (`none` resp. a placeholder; real-code comparison only)",
+    "WM.C15.estimate_total": "trees without span queries (hypothesis spanFree); NumericRange.estimate_size is a "
+                             "placeholder in the model",
+    "WM.C15.estimate_total_ge": "as estimate_total",
     "WM.C15.idempotent": "full for the modelled classes; NestedParent/NestedChildren are not in the model (real-code "
                          "stream only), span queries are opaque leaves",
 }
 RULE = ("random query trees (depth <= 4) over all modelled query classes incl. span queries (opaque leaves with "
         "all constructor arguments), nested same-class compounds, duplicate clauses, overlapping ranges, Null/empty "
-        "clauses and Every; 20 % of the end-to-end trees come from QueryParser.parse(normalize=False); a third "
+        "clauses and Every, near-duplicate clauses (a copy with exactly one constructor argument of one node "
+        "changed), Sequence/Ordered nested in Sequence/Ordered (mixed classes, equal and different slop/ordered; "
+        "a 'positional' profile with few words and longer documents); pairs (tree, near-duplicate) for the "
+        "equality/hash stream; pairs of TermRanges for overlaps/merge called directly; "
+        "20 % of the end-to-end trees come from QueryParser.parse(normalize=False); a third "
         "stream runs NestedParent/NestedChildren trees on grouped indexes; non-trivial = the rewrite changed the "
         "tree (correspondence) resp. the rewritten tree differs from the original and the original matches at least "
         "one and not all documents (end-to-end); distinct = distinct (operation, serialized tree[, index])")
@@ -67,14 +76,23 @@ ASSUMPTIONS = [
     "model mirrors whoosh.query rewriting code: sampled on every run (serialized result trees compared node for "
     "node), not proved",
     "Python's `s in seenqs` (hash + eq) is modelled as structural equality of the attributes that take part in "
-    "__eq__ or __hash__; hash collisions of unequal queries and the falsy-empty-compound quirk (an empty compound "
-    "has len 0, so `other and ...` in __eq__ is falsy and it never equals a copy of itself) are not modelled: the "
-    "generator produces no empty Sequence and no empty compound below a ConstantScoreQuery",
+    "__eq__ or __hash__ (WM.C15.eq_iff); compared on every run with the real `b in {a}` on copies and on "
+    "near-duplicate pairs that differ in exactly one constructor argument of one node (stream eq; pairs that "
+    "differ in boosts of Not nodes only, which Not.__eq__ ignores and Not.__hash__ reads, are only required to "
+    "be == and the model keeps them apart), and real "
+    "pairs with a == b are searched and must match the same documents; hash collisions of unequal queries and the "
+    "falsy-empty-compound quirk (an empty compound has len 0, so `other and ...` in __eq__ is falsy and it never "
+    "equals a copy of itself) are not modelled: the generator produces no empty Sequence and no empty compound "
+    "below a ConstantScoreQuery, and the eq stream skips trees with an empty compound",
     "the positional part of Sequence/Ordered is an abstract parameter of the spec (spans are not modelled); the "
     "oracle tabulates it from the real search of the Sequence node",
     "FuzzyTerm/Variations/Regex/NumericRange expansions are an arbitrary term predicate in the theorems; the "
     "oracle tabulates them from whoosh's own per-segment expansion; trees whose FuzzyTerm expands differently on the "
     "whole reader and per segment (property C19) are skipped",
+    "WM.Sat.sat reads Prefix/Wildcard/TermRange/FuzzyTerm/... as skipping the empty term, which the code did until "
+    "the fix: 'MultiTerm.matcher no longer skips the empty term'; the theorems exclude such documents anyway "
+    "(Doc.Plain), and on an index that holds the empty term the end-to-end stream compares the two searches only, "
+    "not the Lean spec (spec not yet re-aligned: the leaf lemmas depend on its shape)",
     "NumericRange.simplify/estimate_size (tiered byte ranges, property C13) are not mirrored; compared on real "
     "objects only",
     "Otherwise(a, b) is decided per segment by whoosh; the spec's whole-index reading is compared on single-segment "
@@ -109,8 +127,13 @@ MANIFEST = {
                   "(decidable predicate WM.Clean.clean; each defect refuted on a concrete witness in Lean), "
                   "normalize is idempotent for every tree (normal-form proof, no hypothesis), with_boost/replace-"
                   "absent/accept-identity preserve `sat`, union merging of overlapping ranges is exact, simplify "
-                  "preserves `sat` on its reader, estimate_size >= |answer|.  Tied to the code on every run by "
-                  "node-for-node comparison of the real rewritten trees with the model's, and by an end-to-end run "
+                  "preserves `sat` on its reader, estimate_size >= |answer| on readers with deleted documents and "
+                  "never raises (no span leaf), normalize/&/|/- never raise (exception-monad mirror normalizeE with "
+                  "the assert of RangeMixin.merge as raising site), equality as used by the de-duplication is "
+                  "equality of trees.  Tied to the code on every run by "
+                  "node-for-node comparison of the real rewritten trees with the model's (a differing tree is "
+                  "accepted only if it returns the same documents with the same scores on generated indexes), and "
+                  "by an end-to-end run "
                   "(docs_for_query before/after every rewrite on generated multi-segment indexes with deletions, "
                   "Lean `sat` as oracle, failing inputs minimised and classified by the violated clause of "
                   "WM.Clean).",
@@ -174,6 +197,89 @@ def _excname(e):
 
 
 # ------------------------------------------------------------------------------------------------
+# equality and hash of query objects: what `s in seenqs` of CompoundQuery.normalize decides
+
+def _nested_seq(qs):
+    """a Sequence/Ordered node with a Sequence/Ordered member somewhere in the tree (text form)"""
+    if qs.count("(seq ") < 2:
+        return False
+    return any(n != "null" and n[0] == "seq" and any(c != "null" and c[0] == "seq" for c in n[2])
+               for n in G.walk(G.parse1(qs)))
+
+
+def _erase_not_boost(x):
+    if isinstance(x, str):
+        return x
+    if x and x[0] == "not":
+        return ["not", _erase_not_boost(x[1]), "1"]
+    return [_erase_not_boost(y) for y in x]
+
+
+def _eq_pairs(rng, q, qs, stat):
+    """(text a, text b, "1"/"0" = real `b in {a}`) for the query with a copy of itself and with a
+    near-duplicate (exactly one constructor argument of one node differs)."""
+    x = G.parse1(qs)
+    if G.has_empty_compound(x):
+        # an empty compound is falsy, so `other and ...` never answers True above it (ASSUMPTIONS)
+        stat("eq:skipped-empty-compound")
+        return []
+    res = []
+    try:
+        res.append((qs, qs, "1" if copy.deepcopy(q) in {q} else "0"))
+        m = G.mutate_sx(rng, x)
+        if m is not None:
+            q2 = G.s2q(m)
+            q2s_ = G.q2s(q2)
+            if q2s_ != qs and not G.has_empty_compound(m):
+                real = q2 in {q}
+                if _erase_not_boost(m) == _erase_not_boost(x):
+                    # the pair differs in boosts of Not nodes only.  Not.__eq__ ignores the boost that
+                    # Not.__hash__ reads, and compounds xor the hashes of their clauses, so whether a Python
+                    # set identifies the two depends on where the boosts sit; the model keeps them apart.
+                    # Required of the real code here: == answers True.
+                    stat("eq:differs-in-Not-boost-only")
+                    if not (q == q2):
+                        res.append((qs, q2s_, "0:Not.__eq__-must-ignore-the-boost"))
+                else:
+                    res.append((qs, q2s_, "1" if real else "0"))
+                    if bool(q == q2) != real:
+                        stat("eq:__eq__-true-but-hash-differs")
+    except G.Unserializable:
+        stat("eq:unserializable")
+    finally:
+        _reset_null()
+    return res
+
+
+def _range_pair(rng, stat):
+    """requests + expected real results for RangeMixin.overlaps and RangeMixin.merge (both modes) on two
+    TermRanges, mostly on one field, bounds biased to touching / nested / open-ended intervals"""
+    from whoosh import query as Q
+
+    def mk(fld):
+        return Q.TermRange(fld, rng.choice(G.RANGE_LO + ["a", "b"]), rng.choice(G.RANGE_HI + ["b", "c"]),
+                           rng.random() < 0.4, rng.random() < 0.4, boost=rng.choice(G.BOOSTS),
+                           constantscore=rng.random() < 0.7)
+    fa = rng.choice(["f", "g", "k"])
+    fb = fa if rng.random() < 0.85 else rng.choice(["f", "g", "k"])
+    a, b = mk(fa), mk(fb)
+    as_, bs_ = G.q2s(a), G.q2s(b)
+    ov = bool(a.overlaps(b))
+    res = [("c15 overlaps %s %s" % (as_, bs_), ("overlaps", as_, bs_, None, "1" if ov else "0"))]
+    stat("range:overlaps:%s" % ov)
+    for inter in (True, False):
+        try:
+            ms = G.q2s(a.merge(b, intersect=inter))
+        except AssertionError:
+            ms = "raises:AssertionError"
+            stat("range:merge-raises-AssertionError(different fields)")
+        except Exception as e:  # noqa
+            ms = "raises:" + _excname(e)
+        res.append(("c15 merge %s %s %s" % (as_, bs_, "1" if inter else "0"), ("merge", as_, bs_, inter, ms)))
+    return res
+
+
+# ------------------------------------------------------------------------------------------------
 # stream 1: correspondence (model <-> real rewrite methods), no index involved
 
 def _corr_worker(job):
@@ -194,6 +300,11 @@ def _corr_worker(job):
             stat("unserializable")
             continue
         stat("root:" + (qs.split()[0].strip("(") if qs != "null" else "null"))
+        if _nested_seq(qs):
+            stat("nested-sequence")
+        for pair in _eq_pairs(rng, q, qs, stat):
+            reqs.append("c15 beq %s %s" % (pair[0], pair[1]))
+            meta.append(("eq", pair[0], pair[1], None, pair[2]))
         for name, fn, arg in _rewrites(rng, q, q2, None):
             orig = qs
             try:
@@ -238,13 +349,23 @@ def _corr_worker(job):
                                         "normalize(normalize(q)) != normalize(q)"))
                 reqs.append("c15 norm2 %s" % qs)
                 meta.append(("normalize2", qs, q2s_, None, rs))
+    # RangeMixin.overlaps / merge called directly (the model functions range_merge_* speak about)
+    for _ in range(max(4, n // 2)):
+        for req, m in _range_pair(rng, stat):
+            reqs.append(req)
+            meta.append(m)
     answers = Driver().ask(reqs)
     for (name, qs, q2s_, arg, rs), ans in zip(meta, answers):
         if name in ("and", "or", "sub"):
             changed = True
+        elif name in ("overlaps", "merge"):
+            changed = rs not in ("0", qs, q2s_)
+        elif name == "eq":
+            changed = qs != q2s_      # a near-duplicate pair (one constructor argument differs)
         else:
             changed = rs != qs
-        out["cases"].append(((name, qs, q2s_ if name in ("and", "or", "sub") else "", arg), changed))
+        out["cases"].append(((name, qs, q2s_ if name in ("and", "or", "sub", "eq", "overlaps", "merge") else "", arg),
+                             changed))
         stat("op:" + name)
         if changed:
             stat("changed:" + name)
@@ -328,8 +449,19 @@ def _collect_rows(trees, searcher, docs, live):
     return list(mrows.values()), list(srows.values()) , list(orows.values()), bad
 
 
+def _dead_ids(reader):
+    """stored ids of the deleted documents that are still in a segment of the real reader (their
+    postings still count in doc_frequency)"""
+    dead = set()
+    for docnum in range(reader.doc_count_all()):
+        if reader.is_deleted(docnum):
+            dead.add(reader.stored_fields(docnum)["id"])
+    return dead
+
+
 def _reader_text(reader, docs, live):
-    """(reader (schema F ..) (lex (F term ..) ..)): the lexicons of the real reader"""
+    """(reader (schema F ..) (lex (F term ..) ..) (dead doc ..)): the lexicons of the real reader and the
+    deleted documents it still holds"""
     lex = []
     for fname in ("f", "g", "k"):
         field = reader.schema[fname]
@@ -337,7 +469,8 @@ def _reader_text(reader, docs, live):
         lex.append("(%d %s)" % (G.FIELDS[fname], " ".join(G.t2s(t) for t in terms)))
     nums = sorted(set(str(d["n"]) for i, d in enumerate(docs) if d.get("n") is not None))
     lex.append("(%d %s)" % (G.FIELDS["n"], " ".join(G.t2s(t) for t in nums)))
-    return "(reader (schema 0 1 2 3) (lex %s))" % " ".join(lex)
+    return "(reader (schema 0 1 2 3) (lex %s) (dead %s))" % (" ".join(lex),
+                                                              " ".join(G.docs_text(docs, _dead_ids(reader))))
 
 
 def _has_kind3(x):
@@ -422,6 +555,9 @@ def _e2e_worker(job):
             dq2, e2 = _try_docs(s, q2)
             if e1:
                 stat("original-unsearchable:" + e1)
+            if _nested_seq(qs):
+                stat("nested-sequence:" + ("unsearchable" if dq is None else "matches-nothing" if not dq
+                                            else "matches-all" if len(dq) == len(live) else "matches-some"))
             for name, fn, arg in _rewrites(rng, q, q2, reader) + [("simplify", lambda: q.simplify(reader), None)]:
                 try:
                     res = fn()
@@ -467,6 +603,24 @@ def _e2e_worker(job):
                 for t in (qs, q2s_, rs):
                     if t is not None and t not in trees:
                         trees[t] = G.parse1(t)
+            # queries that compare equal match the same documents
+            if dq is not None:
+                for _ in range(3):
+                    try:
+                        m = G.mutate_sx(rng, G.parse1(qs))
+                        qm = G.s2q(m) if m is not None else None
+                        if qm is None or G.has_empty_compound(m) or not (q == qm):
+                            continue
+                        qms = G.q2s(qm)
+                    except G.Unserializable:
+                        continue
+                    stat("eq:equal-pair-searched")
+                    dm, em = _try_docs(s, qm)
+                    out["cases"].append((("eq-e2e", qs, qms, seed), qms != qs and 0 < len(dq) < len(live)))
+                    if em is None and dm != dq:
+                        out["failing"].append({"sig": "__eq__:equal-queries-match-different-documents", "op": "eq",
+                                               "q": qs, "q2": qms, "expected": dq, "observed": dm,
+                                               "case": {"docs": docs, "layout": [layout[0], sorted(layout[1])]}})
             # estimate_size >= number of matching documents
             if dq is not None:
                 try:
@@ -489,8 +643,9 @@ def _e2e_worker(job):
             stat("spec-skipped:unsearchable-sequence-or-ambiguous-fuzzy(C19)", len(trees) - len(order))
         rtxt = _reader_text(reader, docs, live)
         simp = [(a, b) for a, b in simp if not _has_kind3(trees[a]) and a in order]
-        ests = [(a, b) for a, b in ests if not layout[1] and a in trees and a in order
-                and not _has_kind3(trees[a])]
+        ests = [(a, b) for a, b in ests if a in trees and a in order and not _has_kind3(trees[a])]
+        if layout[1]:
+            stat("corr:estimate:index-with-deletions", len(ests))
         replies = Driver().ask(["c15 answers %s (%s)" % (env, " ".join(order)),
                                 "c15 simplify %s %s (%s)" % (env, rtxt, " ".join(a for a, _ in simp)),
                                 "c15 estimate %s %s (%s)" % (env, rtxt, " ".join(a for a, _ in ests))])
@@ -517,6 +672,7 @@ def _e2e_worker(job):
         oset = set(order)
         items = [it for it in items if it[0] != "simplify" or it[1] in oset]
         casemeta = {"docs": docs, "layout": [layout[0], sorted(layout[1])]}
+        has_empty = any(d.get("k") == "" and i in live for i, d in enumerate(docs))
         for name, qs, q2s_, rs, exp, obs in items:
             nontriv = (rs is not None and rs != qs) and 0 < len(exp) < len(live)
             out["cases"].append(((name, qs, q2s_ if name in ("and", "or", "sub") else "", seed), nontriv))
@@ -542,7 +698,12 @@ def _e2e_worker(job):
                         out["samples"].append({"spec-vs-search": qs, "q2": q2s_, "op": name, "spec": sexp_,
                                                "search": exp, "docs": docs, "layout": casemeta["layout"]})
                 if rs is not None and rs in spec:
-                    if spec[rs] != sexp_ and obs == exp:
+                    if spec[rs] != sexp_ and obs == exp and has_empty:
+                        # WM.Sat.sat still reads multi-term leaves as skipping the empty term (the code did
+                        # so until the fix: "MultiTerm.matcher no longer skips the empty term"); on an index
+                        # that holds the empty term the spec is not an oracle, the two searches are
+                        stat("spec-skipped:index-holds-the-empty-term(spec-stale-there)")
+                    elif spec[rs] != sexp_ and obs == exp:
                         # the rewrite changed the meaning (per spec) although the searches agree
                         out["failing"].append({"sig": None, "op": name, "q": qs, "q2": q2s_, "expected": sexp_,
                                                "observed": spec[rs], "rewritten": rs, "case": casemeta,
@@ -999,14 +1160,147 @@ def _classify(driver, small):
 
 
 # ------------------------------------------------------------------------------------------------
+# a rewrite whose result differs from the model's tree: is it the same query for every search?
 
-def _merge(ctx, out, stream):
+def _scored(searcher, q):
+    with G.deadline(G.SEARCH_TIMEOUT):
+        return sorted((hit["id"], hit.score) for hit in searcher.search(q, limit=None))
+
+
+def _equiv_worker(job):
+    """(model tree, real tree, seed) -> True iff the two trees, as real queries, return the same documents
+    with the same scores on a series of generated indexes (small and larger, several segments,
+    deletions) and at least four of the searches could be carried out."""
+    mtxt, rtxt, seed = job
+    try:
+        qm, qr = G.s2q(G.parse1(mtxt)), G.s2q(G.parse1(rtxt))
+    except Exception:  # noqa
+        return False
+    rng = random.Random(seed)
+    done = 0
+    for i in range(10):
+        docs = G.gen_docs(rng, {"maxdocs": 9 if i < 6 else 40, "odd": 0.15 if i % 3 == 2 else 0.0})
+        layout = G.gen_layout(rng, len(docs), {})
+        ix = G.build_index(docs, layout)
+        with ix.searcher() as s:
+            try:
+                a = _scored(s, qm)
+            except (Exception, G.SearchTimeout) as e:  # noqa
+                a = _excname(e)
+            try:
+                b = _scored(s, qr)
+            except (Exception, G.SearchTimeout) as e:  # noqa
+                b = _excname(e)
+            finally:
+                _reset_null()
+        if isinstance(a, str) or isinstance(b, str):
+            if a != b:
+                return False
+            continue
+        if [d for d, _ in a] != [d for d, _ in b]:
+            return False
+        for (_, x), (_, y) in zip(a, b):
+            if abs(x - y) > 1e-9 * max(1.0, abs(x), abs(y)):
+                return False
+        done += 1
+    return done >= 4
+
+
+_TREE_OPS = ("normalize", "normalize2", "and", "or", "sub", "boost", "replace", "accept", "apply", "simplify")
+
+
+def _resolve_divergences(ctx, divs):
+    """The correspondence compares the rewritten trees node for node.  Where the real tree differs from
+    the model's, the two are compared as queries (same documents, same scores on generated indexes):
+    an equivalent result is recorded as a note (the theorems speak about the model's tree; the code's
+    tree is observably the same query), anything else is a divergence."""
+    jobs, idx = [], []
+    for i, (comp, case, model, impl) in enumerate(divs):
+        if (isinstance(case, dict) and case.get("op") in _TREE_OPS and isinstance(model, str)
+                and isinstance(impl, str) and not model.startswith("raises:") and not impl.startswith("raises:")
+                and model != "bad-op"):
+            jobs.append((model, impl, "%s:%d" % (ctx.seed, i)))
+            idx.append(i)
+    verdict = {}
+    if jobs:
+        for i, ok in zip(idx, ctx.pmap(_equiv_worker, jobs[:400])):
+            verdict[i] = ok
+    noted = set()
+    for i, (comp, case, model, impl) in enumerate(divs):
+        if verdict.get(i):
+            ctx.stat("corr:tree-differs-from-model-but-equivalent-query:" + case["op"])
+            if case["op"] not in noted and len(noted) < 6:
+                noted.add(case["op"])
+                ctx.note("%s: the real result differs from the model's tree but returns the same documents with the "
+                         "same scores on generated indexes, e.g. %s -> model %s, code %s"
+                         % (case["op"], G.pretty(case["q"])[:300], G.pretty(model)[:300], G.pretty(impl)[:300]))
+        else:
+            ctx.divergence(comp, case, model, impl)
+
+
+def _focus_estimate_worker(job):
+    """estimate_size of this tree differs from the model's: look for an index on which it is below the
+    number of matching documents (the only thing the property demands of it)."""
+    qs, seed = job
+    rng = random.Random(seed)
+    q = G.s2q(G.parse1(qs))
+    for i in range(40):
+        docs = G.gen_docs(rng, {"maxdocs": 9 if i < 30 else 30})
+        layout = G.gen_layout(rng, len(docs), {})
+        ix = G.build_index(docs, layout)
+        with ix.searcher() as s:
+            try:
+                dq = G.docs_of(s, q)
+                est = q.estimate_size(s.reader())
+            except (Exception, G.SearchTimeout):  # noqa
+                continue
+            finally:
+                _reset_null()
+            if est < len(dq):
+                return {"op": "estimate", "q": qs, "q2": "null", "docs": docs, "layout": [layout[0], sorted(layout[1])],
+                        "expected": len(dq), "observed": est}
+    return None
+
+
+def _resolve_estimates(ctx, divs):
+    """estimate_size is an estimate: the property only demands that it is never below the number of matching
+    documents.  A value that differs from the model's is searched for a violation of that (40 generated
+    indexes per tree); if none is found the difference is recorded as a note, not as a divergence."""
+    trees = []
+    for comp, case, model, impl in divs:
+        if case["q"] not in trees:
+            trees.append(case["q"])
+    found = {}
+    jobs = [(t, "%s:est:%d" % (ctx.seed, i)) for i, t in enumerate(trees[:200])]
+    for (t, _), r in zip(jobs, ctx.pmap(_focus_estimate_worker, jobs)):
+        if r is not None:
+            found[t] = r
+    for t, r in list(found.items())[:5]:
+        ctx.violation("estimate_size:below-true-count", r, r["expected"], r["observed"],
+                      "estimate_size() below the number of matching documents")
+    noted = False
+    for comp, case, model, impl in divs:
+        if case["q"] in found or case["q"] not in trees[:200] or impl == "err" or model == "err":
+            ctx.divergence(comp, case, model, impl)
+        else:
+            ctx.stat("corr:estimate-differs-from-model-but-never-below-count")
+            if not noted:
+                noted = True
+                ctx.note("estimate_size differs from the model's value (e.g. %s: model %s, code %s) but was never below "
+                         "the number of matching documents on 40 generated indexes per tree"
+                         % (G.pretty(case["q"])[:300], model, impl))
+
+
+def _merge(ctx, out, stream, divs=None):
     for key, nontriv in out["cases"]:
         ctx.case(key, nontrivial=nontriv)
     for k, v in out["stats"].items():
         ctx.stat(stream + ":" + k, v)
     for comp, case, model, impl in out["div"]:
-        ctx.divergence(comp, case, model, impl)
+        if divs is not None:
+            divs.append((comp, case, model, impl))
+        else:
+            ctx.divergence(comp, case, model, impl)
     for sig, case, exp, obs, desc in out["viol"]:
         ctx.violation(sig, case, exp, obs, desc)
     for smp in out["samples"]:
@@ -1017,6 +1311,9 @@ PROFILES = [
     {"name": "all", "voids": True, "same": 0.25, "odd": 0.0},
     {"name": "novoid", "voids": False, "same": 0.3, "odd": 0.0},
     {"name": "odd-terms", "voids": False, "same": 0.2, "odd": 0.3},
+    # positional: (nested) Sequence/Ordered trees over few words, documents with longer fields
+    {"name": "positional", "voids": False, "same": 0.25, "odd": 0.0, "seqbias": 0.45, "seqwords": True,
+     "longdocs": True, "spans": False},
 ]
 
 
@@ -1034,9 +1331,12 @@ def run(ctx):
     rng = ctx.rng("corr")
     njobs = ctx.budget(28, 200)
     per = 120 if ctx.tier == "quick" else 400   # (ctx.budget scales with ctx.boost: scale one factor only)
-    jobs = [("%s:%d" % (rng.random(), i), per, dict(PROFILES[i % 2], illtyped=True)) for i in range(njobs)]
+    jobs = [("%s:%d" % (rng.random(), i), per, dict(PROFILES[(0, 1, 0, 1, 3)[i % 5]], illtyped=True))
+            for i in range(njobs)]
+    divs = []
     for out in ctx.pmap(_corr_worker, jobs):
-        _merge(ctx, out, "corr")
+        _merge(ctx, out, "corr", divs)
+    _resolve_divergences(ctx, divs)
     changed = ctx.stats.get("corr:changed:normalize", 0)
     if changed * 5 < ctx.stats.get("corr:op:normalize", 1):
         from vcheck import InfraError
@@ -1046,11 +1346,16 @@ def run(ctx):
     rng = ctx.rng("e2e")
     njobs = ctx.budget(64, 800)
     per = 12 if ctx.tier == "quick" else 16
-    jobs = [("%s:%d" % (rng.random(), i), per, PROFILES[i % 3]) for i in range(njobs)]
+    jobs = [("%s:%d" % (rng.random(), i), per, PROFILES[i % 4]) for i in range(njobs)]
     failing = []
+    divs = []
     for out in ctx.pmap(_e2e_worker, jobs):
-        _merge(ctx, out, "e2e")
+        _merge(ctx, out, "e2e", divs)
         failing.extend(out["failing"])
+    for d in divs:
+        if d[0] != "query.estimate_size":
+            ctx.divergence(*d)
+    _resolve_estimates(ctx, [d for d in divs if d[0] == "query.estimate_size"])
     # stream 3
     rng = ctx.rng("nested")
     njobs = ctx.budget(24, 240)
@@ -1077,7 +1382,11 @@ def _post(ctx, failing):
     todo = []
     for f in failing:
         if f.get("sig"):
-            ctx.violation(f["sig"], {"op": f["op"], "q": f["q"], "q2": f["q2"]}, f["expected"], f["observed"], "")
+            case = {"op": f["op"], "q": f["q"], "q2": f["q2"]}
+            if f["op"] == "eq":
+                case.update(f["case"])
+            ctx.violation(f["sig"], case, f["expected"], f["observed"],
+                          "two queries that compare equal (==) match different documents" if f["op"] == "eq" else "")
         else:
             todo.append(f)
     # group the raw failing cases by the defect clauses of their (unshrunk) tree, then minimise a
@@ -1121,6 +1430,20 @@ def _run_record(case):
         finally:
             _reset_null()
         return ra != rb, "normalize:not-idempotent", ra, rb, None
+    if op == "eq":
+        # two queries that compare equal must match the same documents
+        try:
+            q, q2 = G.s2q(qx), G.s2q(q2x)
+            if not (q == q2):
+                return False, None, "q != q2", "q != q2", None
+            ix = G.build_index(case["docs"], (case["layout"][0], set(case["layout"][1])))
+            with ix.searcher() as s:
+                a, b = G.docs_of(s, q), G.docs_of(s, q2)
+            return a != b, "__eq__:equal-queries-match-different-documents", a, b, None
+        except Exception as e:  # noqa
+            return True, "eq:raises:%s" % _excname(e), "two answers", _excname(e), None
+        finally:
+            _reset_null()
     if "docs" not in case:
         # a rewrite that used to raise
         try:
